@@ -169,6 +169,27 @@ def check_props(propfile, theorems=None):
                 wall=time.time() - t0)
 
 
+def coqchk(modules, timeout=3000):
+    """Re-check compiled Props modules (and everything they depend on) with the independent checker.
+    Returns dict(ok, axioms, log).  Axioms are those of every loaded library (Flocq's classical reals)."""
+    cmd = ["coqchk", "-o", "-silent", "-Q", os.path.join(VERIF, "theories"), "Ink"] + list(modules)
+    try:
+        rc, o, e = sh(cmd, cwd=VERIF, timeout=timeout)
+    except subprocess.TimeoutExpired:
+        return dict(ok=False, axioms=[], log="coqchk timed out")
+    out = o + e
+    m = re.search(r"\* Axioms:(.*?)\* Constants/Inductives relying on type-in-type", out, re.S)
+    ax = [a for a in (m.group(1).split() if m else []) if a != "<none>"]
+    bad = [a for a in ax if not any(a == b or a.endswith("." + b) for b in ALLOWED_AXIOMS)]
+    other = []
+    for label in ("relying on type-in-type", "relying on unsafe (co)fixpoints", "whose positivity is assumed"):
+        mm = re.search(re.escape(label) + r":(.*?)(?:\n\s*\n|\Z)", out, re.S)
+        if mm and "<none>" not in mm.group(1):
+            other.append(label + ":" + " ".join(mm.group(1).split())[:200])
+    return dict(ok=(rc == 0 and not bad and not other and m is not None), axioms=ax, outside_allow_list=bad,
+                unsafe=other, log=out[-1500:])
+
+
 def text2coq(s):
     return "[" + ";".join(str(ord(c)) for c in s) + "]%N"
 
